@@ -724,11 +724,12 @@ def build(repo):
         else:
             kind = "row%d" % i
         kinds.append(kind if kind not in kinds else "%s_dup%d" % (kind, i))
-    for row, kind in zip(rows, kinds):
+    for i_row, (row, kind) in enumerate(zip(rows, kinds)):
         ens = [C("cast_keeps_the_meaning", "r is Ok ==> same_meaning(*r->Ok_0.ms, *ast.ms)")]
         if kind in ("Alt", "Swap", "Check", "DupIf", "Verify", "NonZero", "ZeroNotEqual"):
             ens.append(C("builds_the_wrapper_around_the_element", "r is Ok ==> r->Ok_0.ms.node == %s::%s(ast.ms)" % (TT, kind)))
-        vf.fn(COMPILER, "impl:Cast<Pk, Ctx>/fn:cast", rename="cast__" + kind, qual="Cast", props=PROPS, rewrites=[
+        # named by position in all_casts() (as in c05_ctors): a row whose node builder changes keeps its obligation ids
+        vf.fn(COMPILER, "impl:Cast<Pk, Ctx>/fn:cast", rename="cast__row%d" % i_row, qual="Cast", props=PROPS, rewrites=[
             C5.instantiate_cast(row),
             lit("R6", "(&self, ast:", "<Pk: MiniscriptKey, Ctx: ScriptContext>(ast:"),
         ] + ([sub("R10-body-start", r"\{", "{\n        proof { reveal_with_fuel(tsem, 2); }", count=1)] if kind in SHAPES else []) + R7, contract=Contract(ensures=ens))
